@@ -794,11 +794,372 @@ def cmd_enums():
     return 0
 
 
+# =========================================================================== structs (C16)
+
+GEN_STRUCTS_LEAN = os.path.join(VERIF, "lean", "Deb822Verif", "Gen", "Structs.lean")
+GEN_STRUCTS_JSON = os.path.join(VERIF, "harness", "gen", "structs.json")
+# the synthetic struct family of the harness is translated exactly like the shipped structs
+HARNESS_STRUCTS = os.path.join(VERIF, "harness", "src", "derive.rs")
+DERIVE_NAMES = ("FromDeb822", "ToDeb822")
+
+
+class AbsSrc(Src):
+    """Src for an absolute path (rel is used for messages only)"""
+
+    def __init__(self, path, rel):
+        self.rel = rel
+        self.path = path
+        try:
+            self.text = open(path, encoding="utf-8").read()
+        except OSError as e:
+            fail(f"cannot read {path}: {e}")
+        self.code, self.mask = self._scan(self.text)
+
+
+def split_fields(src, a, b):
+    """split mask[a:b] at commas that are outside (), [], {} and <>"""
+    spans, depth, start, k = [], 0, a, a
+    m = src.mask
+    while k < b:
+        ch = m[k]
+        if ch in "({[<":
+            depth += 1
+        elif ch in ")}]":
+            depth -= 1
+        elif ch == ">" and not (k > 0 and m[k - 1] in "-="):
+            depth -= 1
+        elif ch == "," and depth == 0:
+            spans.append((start, k))
+            start = k + 1
+        k += 1
+    spans.append((start, b))
+    return spans
+
+
+def take_attrs(src, a, b):
+    """leading #[...] attributes of mask[a:b]: list of (text, pos), position after them"""
+    attrs = []
+    k = a
+    m = src.mask
+    while True:
+        while k < b and m[k] in " \t\r\n":
+            k += 1
+        if k < b and m[k] == "#":
+            j = k + 1
+            while j < b and m[j] in " \t\r\n!":
+                j += 1
+            if j >= b or m[j] != "[":
+                fail(f"{src.rel}:{src.line_of(k)}: stray '#'")
+            e = src.match_brace(j)
+            attrs.append((src.code[j + 1:e], k))
+            k = e + 1
+        else:
+            return attrs, k
+
+
+def norm_type(t):
+    t = re.sub(r"\s+", "", t)
+    return t.replace(",", ", ")
+
+
+def option_inner(ty):
+    """mirror of deb822-derive `is_option`: the last path segment is `Option`"""
+    m = re.fullmatch(r"((?:\w+::)*)Option<(.*)>", ty)
+    if m:
+        return True, m.group(2)
+    if re.fullmatch(r"((?:\w+::)*)Option", ty):
+        fail(f"bare Option type: {ty}")
+    return False, ty
+
+
+def parse_deb822_attr(text, where):
+    """contents of #[deb822( ... )] -> dict"""
+    m = re.fullmatch(r"\s*deb822\s*\((.*)\)\s*", text, flags=re.S)
+    if not m:
+        fail(f"{where}: malformed deb822 attribute: {text!r}")
+    out = {}
+    body = m.group(1)
+    # name = value pairs separated by top-level commas
+    parts, depth, cur, instr = [], 0, "", False
+    i = 0
+    while i < len(body):
+        ch = body[i]
+        if instr:
+            cur += ch
+            if ch == "\\":
+                cur += body[i + 1]
+                i += 1
+            elif ch == '"':
+                instr = False
+        elif ch == '"':
+            instr = True
+            cur += ch
+        elif ch in "([{":
+            depth += 1
+            cur += ch
+        elif ch in ")]}":
+            depth -= 1
+            cur += ch
+        elif ch == "," and depth == 0:
+            parts.append(cur)
+            cur = ""
+        else:
+            cur += ch
+        i += 1
+    if cur.strip():
+        parts.append(cur)
+    for part in parts:
+        nv = re.fullmatch(r"\s*(\w+)\s*=\s*(.*?)\s*", part, flags=re.S)
+        if not nv:
+            fail(f"{where}: deb822 attribute item not name = value: {part!r}")
+        name, val = nv.group(1), nv.group(2)
+        if name == "field":
+            if not re.fullmatch(STR, val):
+                fail(f"{where}: deb822(field = …) expects a string literal, got {val!r}")
+            out["field"] = unescape(val, where)
+        elif name in ("serialize_with", "deserialize_with"):
+            if not re.fullmatch(r"(?:\w+::)*\w+", val):
+                fail(f"{where}: deb822({name} = …) expects a path, got {val!r}")
+            out[name] = val
+        else:
+            fail(f"{where}: unsupported deb822 attribute: {name}")
+        if list(p for p in parts).count(part) > 1:
+            fail(f"{where}: duplicate deb822 attribute item {part!r}")
+    return out
+
+
+def module_id(rel):
+    parts = rel.split("/")
+    stem = os.path.splitext(parts[-1])[0]
+    if stem in ("lib", "lossy", "mod", "lossless"):
+        crate = parts[0] if parts[0] != "src" else "deb822"
+        return re.sub(r"[^A-Za-z0-9]", "", crate)
+    return stem
+
+
+CODEC_SOURCES = {}
+
+
+def codec_source(src, qname):
+    """whitespace-normalised source text of a custom codec function defined in the same file"""
+    if qname in CODEC_SOURCES:
+        return
+    name = qname.split(".", 1)[1]
+    hits = list(re.finditer(r"\bfn\s+" + re.escape(name) + r"\s*(?:<[^>]*>)?\s*\(", src.mask))
+    if len(hits) != 1:
+        fail(f"{src.rel}: expected exactly one definition of codec function {name}, found {len(hits)}")
+    par = src.match_brace(hits[0].end() - 1)
+    o = src.mask.index("{", par)
+    c = src.match_brace(o)
+    CODEC_SOURCES[qname] = re.sub(r"\s+", " ", src.code[hits[0].start():c + 1]).strip()
+
+
+def extract_structs_from(src):
+    out = []
+    for dm in re.finditer(r"#\s*\[\s*derive\s*\(", src.mask):
+        close = src.match_brace(dm.end() - 1)
+        names = [n.strip().split("::")[-1] for n in src.code[dm.end():close].split(",")]
+        derives = [n for n in names if n in DERIVE_NAMES]
+        if not derives:
+            continue
+        # further attributes, then `struct`
+        k = src.mask.index("]", close) + 1
+        attrs, k = take_attrs(src, k, len(src.mask))
+        hm = re.compile(r"\s*(?:pub(?:\s*\([^)]*\))?\s+)?struct\s+(\w+)\s*(<[^>{]*>)?\s*(\{|\(|;)").match(src.mask, k)
+        if not hm:
+            fail(f"{src.rel}:{src.line_of(dm.start())}: derive({', '.join(derives)}) not followed by a struct (the macro panics on enums)")
+        if hm.group(2):
+            fail(f"{src.rel}:{src.line_of(hm.start(1))}: generic struct {hm.group(1)} deriving the paragraph conversions")
+        if hm.group(3) != "{":
+            fail(f"{src.rel}:{src.line_of(hm.start(1))}: struct {hm.group(1)} is not a named-field struct")
+        o = hm.end() - 1
+        c = src.match_brace(o)
+        fields = []
+        for a, b in split_fields(src, o + 1, c):
+            if not src.mask[a:b].strip():
+                continue
+            fattrs, k2 = take_attrs(src, a, b)
+            decl = src.code[k2:b].strip()
+            where = f"{src.rel}:{src.line_of(k2)}"
+            fm = re.fullmatch(r"(?:pub(?:\s*\([^)]*\))?\s+)?(r#)?(\w+)\s*:\s*(.+)", decl, flags=re.S)
+            if not fm:
+                fail(f"{where}: cannot read field of {hm.group(1)}: {decl!r}")
+            ident = (fm.group(1) or "") + fm.group(2)
+            ty = norm_type(fm.group(3))
+            spec = {}
+            for text, pos in fattrs:
+                if re.match(r"\s*deb822\b", text):
+                    d = parse_deb822_attr(text, f"{src.rel}:{src.line_of(pos)}")
+                    for kk, vv in d.items():
+                        spec[kk] = vv  # a later attribute overrides, as in the macro
+            optional, inner = option_inner(ty)
+            mid = module_id(src.rel)
+
+            def qual(n):
+                return n if (not n or "::" in n) else mid + "." + n
+            fields.append({
+                "ident": ident,
+                # the macro: attrs.field.unwrap_or_else(|| ident.to_string())
+                "key": spec.get("field", ident),
+                "key_explicit": "field" in spec,
+                "optional": optional,
+                "serialize_with": qual(spec.get("serialize_with", "")),
+                "deserialize_with": qual(spec.get("deserialize_with", "")),
+                "type": inner,
+                "line": src.line_of(k2),
+            })
+        for f in fields:
+            for nm in (f["serialize_with"], f["deserialize_with"]):
+                if nm and "::" not in nm:
+                    codec_source(src, nm)
+        out.append({"name": hm.group(1), "file": src.rel, "line": src.line_of(hm.start(1)),
+                    "from": "FromDeb822" in derives, "to": "ToDeb822" in derives, "fields": fields})
+    return out
+
+
+def collect_structs():
+    structs = []
+    for root, dirs, files in os.walk(REPO):
+        dirs[:] = sorted(d for d in dirs if d not in ("target", ".git", "deb822-derive", "fuzz", "node_modules"))
+        for f in sorted(files):
+            if f.endswith(".rs"):
+                path = os.path.join(root, f)
+                try:
+                    if "Deb822" not in open(path, encoding="utf-8").read():
+                        continue
+                except (OSError, UnicodeDecodeError) as e:
+                    fail(f"cannot read {path}: {e}")
+                rel = os.path.relpath(path, REPO)
+                structs += extract_structs_from(Src(rel))
+    if os.path.exists(HARNESS_STRUCTS):
+        structs += extract_structs_from(AbsSrc(HARNESS_STRUCTS, "harness/src/derive.rs"))
+    # ids
+    seen = {}
+    for st in structs:
+        base = module_id(st["file"]) + "." + st["name"]
+        seen.setdefault(base, []).append(st)
+    for base, lst in seen.items():
+        if len(lst) == 1:
+            lst[0]["id"] = base
+        else:
+            for st in lst:
+                st["id"] = f"{base}@{st['line']}"
+    ids = [st["id"] for st in structs]
+    if len(set(ids)) != len(ids):
+        fail(f"struct ids not unique: {ids}")
+    if not structs:
+        fail("no struct deriving FromDeb822/ToDeb822 found")
+    return structs
+
+
+def lean_chars(s):
+    """explicit `List Char` literal: kernel `decide` need not decode a string literal (4x faster)"""
+    def ch(c):
+        if c == "'":
+            return "'\\''"
+        if c == "\\":
+            return "'\\\\'"
+        if c == "\n":
+            return "'\\n'"
+        if c == "\t":
+            return "'\\t'"
+        if c == "\r":
+            return "'\\r'"
+        if ord(c) < 32 or ord(c) == 127:
+            return "'\\x%02x'" % ord(c)
+        return "'" + c + "'"
+    return "[" + ",".join(ch(c) for c in s) + "]"
+
+
+def source_hash(text):
+    import hashlib
+    return hashlib.sha256(text.encode("utf-8")).hexdigest()[:16]
+
+
+def emit_structs_lean(structs):
+    L = ["import Deb822Verif.Model.Derive", "/-!",
+         "  GENERATED by tools/translate.py structs from the Rust sources of /repo (and the synthetic",
+         "  struct family of harness/src/derive.rs) — do not edit.  Plain data only.", "-/",
+         "namespace Deb822Verif.Gen.Structs", "open Deb822Verif.Derive", ""]
+    names = []
+    for i, st in enumerate(structs):
+        ident = "s" + str(i) + "_" + re.sub(r"[^A-Za-z0-9]", "_", st["id"])
+        names.append(ident)
+        L.append(f"/-- `{st['name']}` {st['file']}:{st['line']}  id `{st['id']}`")
+        for f in st["fields"]:
+            L.append(f"     {f['ident']}: key `{f['key']}`{' (default)' if not f['key_explicit'] else ''}, "
+                     f"{'Option<' + f['type'] + '>' if f['optional'] else f['type']}, ser `{f['serialize_with'] or 'ToString'}`, de `{f['deserialize_with'] or 'FromStr'}`".replace("-/", "- /"))
+        L.append("-/")
+        L.append(f"def {ident} : StructRow where")
+        L.append(f"  name := {lean_chars(st['id'])}")
+        L.append(f"  derivesFrom := {'true' if st['from'] else 'false'}")
+        L.append(f"  derivesTo := {'true' if st['to'] else 'false'}")
+        L.append("  fields := [")
+        rows = []
+        for f in st["fields"]:
+            rows.append(f"    ⟨{lean_chars(f['ident'])}, {lean_chars(f['key'])}, {'true' if f['optional'] else 'false'}, "
+                        f"{lean_chars(f['serialize_with'])}, {lean_chars(f['deserialize_with'])}, {lean_chars(f['type'])}⟩")
+        L.append(",\n".join(rows) + "]")
+        L.append("")
+    L.append("def all : List StructRow := [" + ", ".join(names) + "]")
+    L.append("")
+    L.append("/-- every custom codec function named by a field, with the first 16 hex digits of the SHA-256 of its")
+    L.append("    source text (white space normalised):")
+    for k, v in sorted(CODEC_SOURCES.items()):
+        L.append(f"      {k}: {v}".replace("-/", "- /"))
+    L.append("-/")
+    L.append("def codecSources : List (Str × Str) := [")
+    L.append(",\n".join(f"  ({lean_chars(k)}, {lean_chars(source_hash(v))})" for k, v in sorted(CODEC_SOURCES.items())) + "]")
+    L.append("")
+    L.append("end Deb822Verif.Gen.Structs")
+    return "\n".join(L) + "\n"
+
+
+STRUCTS_POISON = """import Deb822Verif.Model.Derive
+/-! GENERATED by tools/translate.py structs — the translator FAILED on the current sources:
+
+{msg}
+
+This file deliberately does not compile. -/
+namespace Deb822Verif.Gen.Structs
+theorem translator_failed : (0 : Nat) = 1 := by decide
+end Deb822Verif.Gen.Structs
+"""
+
+
+def cmd_structs():
+    CODEC_SOURCES.clear()
+    try:
+        structs = collect_structs()
+    except TranslateError as e:
+        print(f"translate structs: ERROR: {e}", file=sys.stderr)
+        write_if_changed(GEN_STRUCTS_LEAN, STRUCTS_POISON.format(msg=str(e).replace("-/", "- /")))
+        return 1
+    c1 = write_if_changed(GEN_STRUCTS_LEAN, emit_structs_lean(structs))
+    c2 = write_if_changed(GEN_STRUCTS_JSON, json.dumps({"generated_by": "tools/translate.py structs", "structs": structs, "codec_sources": CODEC_SOURCES,
+                                                        "codec_source_hashes": {k: source_hash(v) for k, v in CODEC_SOURCES.items()}},
+                                                       indent=1, ensure_ascii=True) + "\n")
+    nf = sum(len(s["fields"]) for s in structs)
+    triples = sorted({(f["serialize_with"], f["deserialize_with"], f["type"]) for s in structs for f in s["fields"]})
+    print(f"translate structs: {len(structs)} deriving structs, {nf} fields, {len(triples)} distinct (ser, de, type) triples; "
+          f"0 opaque; {'updated' if c1 or c2 else 'unchanged'} {os.path.relpath(GEN_STRUCTS_LEAN, VERIF)}, {os.path.relpath(GEN_STRUCTS_JSON, VERIF)}")
+    return 0
+
+
 def main(argv):
-    if len(argv) >= 1 and argv[0] == "enums":
-        return cmd_enums()
-    print(__doc__)
-    return 2
+    if not argv:
+        print(__doc__)
+        return 2
+    rc = 0
+    for cmd in argv:
+        if cmd == "enums":
+            rc = cmd_enums() or rc
+        elif cmd == "structs":
+            rc = cmd_structs() or rc
+        else:
+            print(__doc__)
+            return 2
+    return rc
 
 
 if __name__ == "__main__":
